@@ -160,6 +160,10 @@ def templates(rng):
         ('BytesInteger(%s %% 3 + 1)' % I(1), 'int'), ('BitStruct("u"/Nibble, "v"/BitsInteger(4))', 'bits'), ('ByteSwapped(Int16ub)', 'int16'),
         ('Hex(Int16ub)', 'int16'), ('NullTerminated(GreedyBytes)', 'nozero'), ('CString("utf8")', 'str'), ('VarInt', 'varint'), ('Bytes(2)', 'int2bytes'),
         ('Padding(%s %% 3)' % I(1), 'none'), ('Flag', 'flag'),
+        # a delimited region away from offset 0 whose field observes the stream position
+        ('FixedSized(4, Struct("t"/Tell, "b"/Byte))', 'reg1'), ('FixedSized(%s %% 3 + 2, Sequence(Byte, Tell))' % I(1), 'reg2'),
+        ('Prefixed(Byte, Struct("t"/Tell, "r"/GreedyBytes))', 'reg3'), ('Struct("g"/FixedSized(3, Struct("t"/Tell, "x"/Byte)), "h"/Bytes(this.g.t %% 4))', 'reg4'),
+        ('FixedSized(3, Pointer(1, Byte))', 'reg5'), ('Prefixed(Byte, Sequence(Tell, Pointer(0, Byte), GreedyBytes))', 'reg6'),
         # a later member depends on the value an earlier member BUILT (Rebuild / Default / Const fill-ins), in every composite
         ('Sequence("n"/Rebuild(Byte, 2), Array(this.n, Byte))', 'dep_seq'), ('Sequence("n"/Default(Byte, 2), "q"/Padding(this.n), Byte)', 'dep_seq2'),
         ('Sequence("n"/Const(2, Byte), If(this.n == 2, Byte))', 'dep_seq3'), ('Struct("n"/Rebuild(Byte, len_(this.v)), "v"/Array(this.n, Byte))', 'dep_struct'),
@@ -222,6 +226,18 @@ def member_value(rng, kind, h):
         return r.choice([b'ab', 1, 258, bytearray(b'xy')])
     if kind == 'flag':
         return r.choice([True, False, 0, 1, 2, '', 'x'])
+    if kind == 'reg1':
+        return dict(b=r.randrange(256))
+    if kind == 'reg2':
+        return [r.randrange(256), None]
+    if kind == 'reg3':
+        return dict(r=G.rand_bytes(r, r.randint(0, 3)))
+    if kind == 'reg4':
+        return dict(g=dict(x=r.randrange(256)), h=G.rand_bytes(r, 4))
+    if kind == 'reg5':
+        return r.randrange(256)
+    if kind == 'reg6':
+        return [None, r.randrange(256), G.rand_bytes(r, r.randint(1, 3))]
     if kind == 'dep_seq':
         return [r.choice([None, 2, 1]), [r.randrange(256), r.randrange(256)]]
     if kind == 'dep_seq2':
